@@ -77,7 +77,7 @@ class HtmlRenderer(BaseRenderer):
             title = ' title="{}"'.format(html.escape(token.title))
         else:
             title = ''
-        return template.format(token.src, self.render_to_plain(token), title)
+        return template.format(self.escape_url(token.src), self.render_to_plain(token), title)
 
     def render_link(self, token: span_token.Link) -> str:
         template = '<a href="{target}"{title}>{inner}</a>'
